@@ -1,6 +1,6 @@
 (* Re-building a schema from its own to_ast (C12).  Part 1: component lists. *)
 From ApolloVerif Require Import Base.Chars Ast.Ast Schema.Model Schema.Build Schema.ToAst Schema.Canon
-  Schema.BuildProofs.
+  Schema.BuildProofs Schema.CanonProofs.
 
 (* ---------------------------------------------------------------- sticky extension with fresh keys *)
 Section StickyFresh.
@@ -388,4 +388,343 @@ Proof.
   erewrite (rb_fold_exts cfg (et_name t)); [|exact Hfind| |exact Hq].
   - unfold rho, disc. rewrite (rb_type_partial_full _ t Hc), app_nil_r. reflexivity.
   - rewrite Ht0', Hk0. apply rb_exts_forall.
+Qed.
+
+(* ---------------------------------------------------------------- all types *)
+(* the types renumbered one after another, as the re-build numbers their extensions *)
+Fixpoint rb_renumber (next : N) (ts : list ext_type) : list ext_type * N :=
+  match ts with
+  | [] => ([], next)
+  | t :: r =>
+    let disc := ta_type_extensions t in
+    let '(r', n') := rb_renumber (next + N.of_nat (length disc)) r in
+    (rn_type (rb_rho next disc) t :: r', n')
+  end.
+
+Lemma rn_type_props f t :
+  et_name (rn_type f t) = et_name t /\ et_builtin (rn_type f t) = et_builtin t /\ sb_et_kind (rn_type f t) = sb_et_kind t.
+Proof. destruct t; cbn; auto. Qed.
+
+Lemma rb_renumber_names ts : forall next, map et_name (fst (rb_renumber next ts)) = map et_name ts.
+Proof.
+  induction ts as [|t ts IH]; intros next; cbn [rb_renumber]; [reflexivity|].
+  specialize (IH (next + N.of_nat (length (ta_type_extensions t)))).
+  destruct (rb_renumber _ ts) as [r' n']. cbn [fst map] in *. rewrite IH.
+  f_equal. apply rn_type_props.
+Qed.
+
+Lemma sch_find_type_none n ts : sch_find_type n ts = None <-> ~ In n (map et_name ts).
+Proof.
+  induction ts as [|t ts IH]; cbn; [tauto|].
+  destruct (streq n (et_name t)) eqn:E.
+  - apply streq_eq in E. split; [discriminate|]. intros H. exfalso. apply H. left. congruence.
+  - rewrite IH. split; [|tauto]. intros H [H1|H1]; [|tauto]. subst. rewrite streq_refl in E. discriminate.
+Qed.
+
+Definition rb_type_ok (t : ext_type) : Prop := rb_type_keys t /\ rb_type_canonical t.
+
+Lemma rb_set_types_set st ts n ts' n' : rb_set_types (rb_set_types st ts n) ts' n' = rb_set_types st ts' n'.
+Proof. reflexivity. Qed.
+
+Lemma rb_fold_user cfg : forall Tu st,
+  Forall (fun t => et_builtin t = false /\ rb_type_ok t) Tu ->
+  NoDup (map et_name Tu) ->
+  (forall n, In n (map et_name Tu) -> ~ In n (map et_name (sbs_types st))) ->
+  sbs_orphans st = [] ->
+  fold_left (sb_add_def cfg) (flat_map ta_type_to_ast Tu) st =
+  rb_set_types st (sbs_types st ++ fst (rb_renumber (sbs_next st) Tu)) (snd (rb_renumber (sbs_next st) Tu)).
+Proof.
+  induction Tu as [|t Tu IH]; intros st Hall Hnd Hdisj Horph; cbn [flat_map rb_renumber].
+  - cbn. rewrite app_nil_r. destruct st; reflexivity.
+  - inversion Hall as [|? ? [Hb [Hk Hc]] Hall']; subst. inversion Hnd as [|? ? Hnotin Hnd']; subst.
+    rewrite fold_left_app.
+    rewrite (rb_user_type cfg st t Hb Hk Hc); [| |exact Horph].
+    2:{ apply sch_find_type_none. apply Hdisj. left. reflexivity. }
+    set (disc := ta_type_extensions t).
+    rewrite IH; [| exact Hall' | exact Hnd' | | exact Horph].
+    + cbn [rb_set_types sbs_types sbs_next].
+      destruct (rb_renumber (sbs_next st + N.of_nat (length disc)) Tu) as [r' n'].
+      cbn [fst snd]. rewrite rb_set_types_set, <- app_assoc. reflexivity.
+    + intros n Hn. cbn [rb_set_types sbs_types]. rewrite map_app, in_app_iff. cbn [map In].
+      intros [H|[H|[]]].
+      * apply (Hdisj n); [right; exact Hn|exact H].
+      * destruct (rn_type_props (rb_rho (sbs_next st) disc) t) as [Hname _]. rewrite Hname in H. subst n. contradiction.
+Qed.
+
+Lemma sch_find_type_app_skip n P t0 rest :
+  ~ In n (map et_name P) -> et_name t0 = n -> sch_find_type n (P ++ t0 :: rest) = Some t0.
+Proof.
+  intros HP Hn. rewrite sch_find_type_app_none by (apply sch_find_type_none; exact HP).
+  cbn. rewrite Hn, streq_refl. reflexivity.
+Qed.
+
+Lemma sb_update_type_app_skip n t' P t0 rest :
+  ~ In n (map et_name P) -> et_name t0 = n -> sb_update_type n t' (P ++ t0 :: rest) = P ++ t' :: rest.
+Proof.
+  intros HP Hn. rewrite sb_update_type_app_none by (apply sch_find_type_none; exact HP).
+  cbn. rewrite Hn, streq_refl. reflexivity.
+Qed.
+
+Lemma rb_fold_builtin cfg : forall Tb T0 P st,
+  Forall2 (fun t t0 => t0 = rb_type_partial (fun i => i) t []) Tb T0 ->
+  Forall rb_type_ok Tb ->
+  NoDup (map et_name P ++ map et_name Tb) ->
+  sbs_types st = P ++ T0 ->
+  fold_left (sb_add_def cfg) (flat_map (fun t => tl (ta_type_to_ast t)) Tb) st =
+  rb_set_types st (P ++ fst (rb_renumber (sbs_next st) Tb)) (snd (rb_renumber (sbs_next st) Tb)).
+Proof.
+  induction Tb as [|t Tb IH]; intros T0 P st H2 Hall Hnd Hty; inversion H2 as [|? t0 ? T0' Ht0 H2']; subst;
+    cbn [flat_map rb_renumber].
+  - cbn. rewrite <- Hty. destruct st; reflexivity.
+  - inversion Hall as [|? ? [Hk Hc] Hall']; subst.
+    assert (HnP : ~ In (et_name t) (map et_name P)).
+    { intros H. apply NoDup_remove_2 in Hnd. apply Hnd. apply in_app_iff. left. exact H. }
+    assert (Hn0 : et_name (rb_type_partial (fun i => i) t []) = et_name t) by apply rb_type_partial_props.
+    rewrite fold_left_app.
+    rewrite (rb_builtin_type cfg st t (rb_type_partial (fun i => i) t []) Hk Hc); [| |reflexivity].
+    2:{ rewrite Hty. apply sch_find_type_app_skip; assumption. }
+    set (disc := ta_type_extensions t). rewrite Hty, sb_update_type_app_skip by assumption.
+    set (t' := rn_type (rb_rho (sbs_next st) disc) t).
+    rewrite (IH T0' (P ++ [t'])); [|exact H2'|exact Hall'| |].
+    + cbn [rb_set_types sbs_types sbs_next].
+      destruct (rb_renumber (sbs_next st + N.of_nat (length disc)) Tb) as [r' n'].
+      cbn [fst snd]. rewrite rb_set_types_set, <- app_assoc. reflexivity.
+    + rewrite map_app. cbn [map]. unfold t'. rewrite (proj1 (rn_type_props _ t)). rewrite <- app_assoc. exact Hnd.
+    + cbn [rb_set_types sbs_types]. rewrite <- app_assoc. reflexivity.
+Qed.
+
+(* ---------------------------------------------------------------- directive definitions *)
+Lemma sch_find_dirdef_none n ds : sch_find_dirdef n ds = None <-> ~ In n (map dd_name ds).
+Proof.
+  induction ds as [|d ds IH]; cbn; [tauto|].
+  destruct (streq n (dd_name d)) eqn:E.
+  - apply streq_eq in E. split; [discriminate|]. intros H. exfalso. apply H. left. congruence.
+  - rewrite IH. split; [|tauto]. intros H [H1|H1]; [|tauto]. subst. rewrite streq_refl in E. discriminate.
+Qed.
+
+Lemma sch_find_dirdef_app_none n a b : sch_find_dirdef n a = None -> sch_find_dirdef n (a ++ b) = sch_find_dirdef n b.
+Proof. induction a as [|d a IH]; cbn; [reflexivity|]. destruct (streq n (dd_name d)); [discriminate|exact IH]. Qed.
+
+Lemma sb_update_dirdef_app_none n d' a b :
+  sch_find_dirdef n a = None -> sb_update_dirdef n d' (a ++ b) = a ++ sb_update_dirdef n d' b.
+Proof.
+  induction a as [|d a IH]; cbn; [reflexivity|]. destruct (streq n (dd_name d)); [discriminate|].
+  intros H. f_equal. apply IH, H.
+Qed.
+
+Definition rb_set_dirdefs (st : sb_state) (ds : list dirdef) : sb_state :=
+  {| sbs_def := sbs_def st; sbs_dirdefs := ds; sbs_types := sbs_types st;
+     sbs_found := sbs_found st; sbs_orphan_sx := sbs_orphan_sx st; sbs_orphans := sbs_orphans st;
+     sbs_next := sbs_next st; sbs_errs := sbs_errs st |}.
+
+Definition rb_nb (d : dirdef) : bool := negb (dd_builtin d).
+
+Lemma rb_dirdef_eta d : dd_builtin d = false ->
+  {| dd_desc := dd_desc d; dd_name := dd_name d; dd_args := dd_args d; dd_repeatable := dd_repeatable d;
+     dd_locs := dd_locs d; dd_builtin := false |} = d.
+Proof. destruct d; cbn; intros ->; reflexivity. Qed.
+
+Lemma rb_fold_dirs_builtin cfg : forall Db D0 P st,
+  Forall2 (fun d d0 => dd_name d = dd_name d0 /\ (d = d0 \/ dd_builtin d = false)) Db D0 ->
+  Forall (fun d => dd_builtin d = true) D0 ->
+  NoDup (map dd_name P ++ map dd_name Db) ->
+  sbs_dirdefs st = P ++ D0 ->
+  fold_left (sb_add_def cfg) (map ta_dirdef_to_ast (filter rb_nb Db)) st = rb_set_dirdefs st (P ++ Db).
+Proof.
+  induction Db as [|d Db IH]; intros D0 P st H2 Hb Hnd Hst; inversion H2 as [|? d0 ? D0' [Hname Hd] H2']; subst.
+  - cbn. rewrite <- Hst. destruct st; reflexivity.
+  - inversion Hb as [|? ? Hb0 Hb']; subst.
+    assert (HnP : ~ In (dd_name d) (map dd_name P)).
+    { intros H. apply NoDup_remove_2 in Hnd. apply Hnd. apply in_app_iff. left. exact H. }
+    assert (Hnd' : NoDup (map dd_name (P ++ [d]) ++ map dd_name Db)).
+    { rewrite map_app. cbn [map]. rewrite <- app_assoc. exact Hnd. }
+    cbn [filter]. unfold rb_nb at 1. destruct Hd as [->|Hd].
+    + rewrite Hb0. cbn [negb]. rewrite (IH D0' (P ++ [d0]) st H2' Hb' Hnd'); [|rewrite Hst, <- app_assoc; reflexivity].
+      rewrite <- app_assoc. reflexivity.
+    + rewrite Hd. cbn [negb map fold_left ta_dirdef_to_ast sb_add_def].
+      rewrite Hst, sch_find_dirdef_app_none by (apply sch_find_dirdef_none; exact HnP).
+      cbn [sch_find_dirdef]. rewrite Hname, streq_refl, Hb0.
+      rewrite sb_update_dirdef_app_none by (apply sch_find_dirdef_none; rewrite <- Hname; exact HnP).
+      cbn [sb_update_dirdef]. rewrite streq_refl. rewrite <- Hname, (rb_dirdef_eta d Hd).
+      rewrite (IH D0' (P ++ [d]) _ H2' Hb' Hnd'); [|cbn [sbs_dirdefs]; rewrite <- app_assoc; reflexivity].
+      unfold rb_set_dirdefs. cbn. rewrite <- app_assoc. reflexivity.
+Qed.
+
+Lemma rb_fold_dirs_user cfg : forall Du st,
+  Forall (fun d => dd_builtin d = false) Du ->
+  NoDup (map dd_name (sbs_dirdefs st) ++ map dd_name Du) ->
+  fold_left (sb_add_def cfg) (map ta_dirdef_to_ast Du) st = rb_set_dirdefs st (sbs_dirdefs st ++ Du).
+Proof.
+  induction Du as [|d Du IH]; intros st Hb Hnd.
+  - cbn. rewrite app_nil_r. destruct st; reflexivity.
+  - inversion Hb as [|? ? Hd Hb']; subst. cbn [map fold_left ta_dirdef_to_ast sb_add_def].
+    assert (Hn : sch_find_dirdef (dd_name d) (sbs_dirdefs st) = None).
+    { apply sch_find_dirdef_none. intros H. apply NoDup_remove_2 in Hnd. apply Hnd. apply in_app_iff. left. exact H. }
+    rewrite Hn, (rb_dirdef_eta d Hd). rewrite IH; [|exact Hb'|].
+    + unfold rb_set_dirdefs. cbn. rewrite <- app_assoc. reflexivity.
+    + cbn [sbs_dirdefs]. rewrite map_app. cbn [map]. rewrite <- app_assoc. exact Hnd.
+Qed.
+
+Lemma NoDup_app_l {A} (a b : list A) : NoDup (a ++ b) -> NoDup a.
+Proof.
+  induction a as [|x a IH]; cbn; intros H; [constructor|]. inversion H as [|? ? Hx H']; subst.
+  constructor; [|apply IH, H']. intros Hin. apply Hx. apply in_app_iff. left. exact Hin.
+Qed.
+
+Lemma filter_all_true' {A} (p : A -> bool) l : Forall (fun x => p x = true) l -> filter p l = l.
+Proof. induction 1; cbn; [reflexivity|]. rewrite H. f_equal. assumption. Qed.
+
+(* the directive definitions of a schema relative to the built-in ones: a built-in definition may have
+   been replaced (in place) by a user definition; user definitions follow *)
+Definition rb_dirdefs_wf (D0 D : list dirdef) : Prop :=
+  exists Db Du, D = Db ++ Du /\
+    Forall2 (fun d d0 => dd_name d = dd_name d0 /\ (d = d0 \/ dd_builtin d = false)) Db D0 /\
+    Forall (fun d => dd_builtin d = true) D0 /\
+    Forall (fun d => dd_builtin d = false) Du /\
+    NoDup (map dd_name D).
+
+Lemma rb_fold_dirdefs cfg D0 D st :
+  rb_dirdefs_wf D0 D -> sbs_dirdefs st = D0 ->
+  fold_left (sb_add_def cfg) (map ta_dirdef_to_ast (filter rb_nb D)) st = rb_set_dirdefs st D.
+Proof.
+  intros [Db [Du [-> [H2 [Hb0 [Hbu Hnd]]]]]] Hst. rewrite filter_app, map_app, fold_left_app.
+  rewrite map_app in Hnd.
+  rewrite (rb_fold_dirs_builtin cfg Db D0 [] st H2 Hb0); [| |exact Hst].
+  2:{ cbn. apply NoDup_app_l in Hnd. exact Hnd. }
+  rewrite (filter_all_true' rb_nb Du).
+  2:{ rewrite Forall_forall in *. intros d Hd. unfold rb_nb. rewrite (Hbu d Hd). reflexivity. }
+  rewrite rb_fold_dirs_user; [|exact Hbu|cbn [rb_set_dirdefs sbs_dirdefs app]; exact Hnd].
+  reflexivity.
+Qed.
+
+(* ---------------------------------------------------------------- the schema definition *)
+Definition rb_root_partial (rho : N -> N) (done : list N) (c : option (comp str)) : option (comp str) :=
+  match c with
+  | None => None
+  | Some c =>
+    match c_origin c with
+    | ODef => Some (mkcomp ODef (c_val c))
+    | OExt j => if ta_mem j done then Some (mkcomp (OExt (rho j)) (c_val c)) else None
+    end
+  end.
+
+Definition rb_sd_partial (rho : N -> N) (sd : schema_def) (done : list N) : schema_def :=
+  {| sd_desc := sd_desc sd; sd_dirs := rb_part (sd_dirs sd) rho done;
+     sd_query := rb_root_partial rho done (sd_query sd);
+     sd_mutation := rb_root_partial rho done (sd_mutation sd);
+     sd_subscription := rb_root_partial rho done (sd_subscription sd) |}.
+
+Lemma ta_mem_snoc j done i : ta_mem j (done ++ [i]) = ta_mem j done || (j =? i).
+Proof. unfold ta_mem. rewrite existsb_app. cbn. rewrite orb_false_r. reflexivity. Qed.
+
+Lemma rb_sd_step rho sd done i :
+  ~ In i done ->
+  sb_extend_schema_def (rho i) (rb_sd_partial rho sd done) (ta_components (Some i) (sd_dirs sd)) (ta_root_ops sd (Some i))
+  = (rb_sd_partial rho sd (done ++ [i]), []).
+Proof.
+  intros Hi. assert (Hm : ta_mem i done = false).
+  { apply not_true_is_false. intros H. apply ta_mem_In in H. contradiction. }
+  unfold sb_extend_schema_def, sb_sd_add_dirs, rb_sd_partial.
+  cbn [sd_desc sd_dirs sd_query sd_mutation sd_subscription]. rewrite rb_dirs_snoc.
+  destruct sd as [d dirs q m s]. unfold ta_root_ops. cbn [sd_desc sd_dirs sd_query sd_mutation sd_subscription].
+  destruct q as [[[|jq] vq]|], m as [[[|jm] vm]|], s as [[[|js] vs]|];
+    cbn [ta_root_op rb_root_partial c_origin c_val ta_origin_is app];
+    rewrite ?ta_mem_snoc;
+    repeat match goal with
+           | |- context [?a =? ?b] =>
+             let E := fresh "E" in destruct (a =? b) eqn:E;
+             [apply N.eqb_eq in E; subst; rewrite ?N.eqb_refl, ?Hm in *|
+              try (rewrite N.eqb_sym in E); rewrite ?E in *; try (rewrite N.eqb_sym in E); rewrite ?E in *]
+           end;
+    cbn [app sb_add_roots sb_sd_root sb_sd_set_root sd_desc sd_dirs sd_query sd_mutation sd_subscription orb];
+    rewrite ?orb_false_r, ?orb_true_r; try reflexivity; try congruence.
+Qed.
+
+Definition rb_sx_of (sd : schema_def) (i : N) : list directive * list rootop :=
+  (ta_components (Some i) (sd_dirs sd), ta_root_ops sd (Some i)).
+
+Lemma rb_sd_all next sd : forall todo done,
+  NoDup (done ++ todo) ->
+  sb_extend_schema_def_all (next + N.of_nat (length done)) (rb_sd_partial (rb_rho next (done ++ todo)) sd done)
+                           (map (rb_sx_of sd) todo)
+  = (rb_sd_partial (rb_rho next (done ++ todo)) sd (done ++ todo), next + N.of_nat (length (done ++ todo)), []).
+Proof.
+  induction todo as [|i todo IH]; intros done Hnd; cbn [map sb_extend_schema_def_all].
+  - rewrite app_nil_r. reflexivity.
+  - assert (Hi : ~ In i done).
+    { apply NoDup_remove_2 in Hnd. intros H. apply Hnd. apply in_app_iff. left. exact H. }
+    assert (Hrho : rb_rho next (done ++ i :: todo) i = next + N.of_nat (length done)).
+    { unfold rb_rho. rewrite cn_index_app_notin by exact Hi. reflexivity. }
+    unfold rb_sx_of at 1. rewrite <- Hrho, rb_sd_step by exact Hi.
+    assert (Heq : done ++ i :: todo = (done ++ [i]) ++ todo) by (rewrite <- app_assoc; reflexivity).
+    rewrite Hrho. rewrite Heq in *.
+    replace (next + N.of_nat (length done) + 1) with (next + N.of_nat (length (done ++ [i])))
+      by (rewrite app_length; cbn [length]; lia).
+    rewrite IH by assumption. reflexivity.
+Qed.
+
+Lemma rb_sd_partial_full rho sd :
+  sd_dirs sd = rb_regroup (ta_sd_extensions sd) (sd_dirs sd) ->
+  rb_sd_partial rho sd (ta_sd_extensions sd) = rn_sd rho sd.
+Proof.
+  intros Hd. unfold rb_sd_partial, rn_sd. rewrite (rb_part_full _ rho _ Hd).
+  assert (H : forall c : option (comp str), incl (ta_opt_origin c) (ta_sd_origins sd) ->
+              rb_root_partial rho (ta_sd_extensions sd) c = rn_opt rho c).
+  { intros [c|] Hc; cbn; [|reflexivity]. destruct (c_origin c) as [|j] eqn:E; [reflexivity|].
+    assert (Hm : ta_mem j (ta_sd_extensions sd) = true).
+    { apply ta_mem_In, ta_ext_ids_In. apply Hc. cbn. rewrite E. left. reflexivity. }
+    rewrite Hm. reflexivity. }
+  rewrite !H; [reflexivity| | |]; unfold ta_sd_origins; intros o Ho; rewrite !in_app_iff; auto.
+Qed.
+
+Lemma rb_sd_start rho sd :
+  sb_add_roots ODef {| sd_desc := sd_desc sd; sd_dirs := sb_comp_dirs ODef (ta_components None (sd_dirs sd));
+                       sd_query := None; sd_mutation := None; sd_subscription := None |} (ta_root_ops sd None)
+  = (rb_sd_partial rho sd [], []).
+Proof.
+  unfold rb_sd_partial, rb_part, sb_comp_dirs. cbn [flat_map]. rewrite app_nil_r.
+  destruct sd as [d dirs q m s]. unfold ta_root_ops. cbn [sd_desc sd_dirs sd_query sd_mutation sd_subscription].
+  destruct q as [[[|jq] vq]|], m as [[[|jm] vm]|], s as [[[|js] vs]|]; reflexivity.
+Qed.
+
+Lemma rb_sd_start_orphan rho sd :
+  sd_desc sd = None -> filter rb_is_def (sd_dirs sd) = [] -> ta_root_ops sd None = [] ->
+  rb_sd_partial rho sd [] = sb_empty_schema_def.
+Proof.
+  intros Hd Hf Hr. unfold rb_sd_partial, rb_part, ta_components. cbn [flat_map]. unfold rb_is_def in Hf. rewrite Hf, Hd.
+  destruct sd as [d dirs q m s]. unfold ta_root_ops in Hr. cbn [sd_desc sd_dirs sd_query sd_mutation sd_subscription] in *.
+  destruct q as [[[|jq] vq]|], m as [[[|jm] vm]|], s as [[[|js] vs]|]; cbn in Hr; try discriminate; reflexivity.
+Qed.
+
+Definition rb_set_sd (st : sb_state) (sd : schema_def) (found : bool) (osx : list (list directive * list rootop)) (next : N)
+  : sb_state :=
+  {| sbs_def := sd; sbs_dirdefs := sbs_dirdefs st; sbs_types := sbs_types st;
+     sbs_found := found; sbs_orphan_sx := osx; sbs_orphans := sbs_orphans st;
+     sbs_next := next; sbs_errs := sbs_errs st |}.
+
+Definition rb_xschema (p : list directive * list rootop) : definition := XSchema (fst p) (snd p).
+
+Lemma rb_fold_sx_found cfg : forall q st sd' n',
+  sbs_found st = true ->
+  sb_extend_schema_def_all (sbs_next st) (sbs_def st) q = (sd', n', []) ->
+  fold_left (sb_add_def cfg) (map rb_xschema q) st = rb_set_sd st sd' true (sbs_orphan_sx st) n'.
+Proof.
+  induction q as [|[dirs roots] q IH]; intros st sd' n' Hf Hq; cbn [map fold_left sb_extend_schema_def_all] in *.
+  - injection Hq as <- <-. destruct st; cbn in *; subst; reflexivity.
+  - cbn [rb_xschema fst snd sb_add_def]. rewrite Hf.
+    destruct (sb_extend_schema_def (sbs_next st) (sbs_def st) dirs roots) as [sd1 e1] eqn:E1.
+    destruct (sb_extend_schema_def_all (sbs_next st + 1) sd1 q) as [[sd2 n2] e2] eqn:E2.
+    injection Hq as <- <- He. apply app_eq_nil in He. destruct He as [-> ->].
+    rewrite (IH _ sd2 n2); [|reflexivity|exact E2]. unfold rb_set_sd. cbn. rewrite app_nil_r. reflexivity.
+Qed.
+
+Lemma rb_fold_sx_orphan cfg : forall q st,
+  sbs_found st = false ->
+  fold_left (sb_add_def cfg) (map rb_xschema q) st =
+  rb_set_sd st (sbs_def st) false (sbs_orphan_sx st ++ q) (sbs_next st).
+Proof.
+  induction q as [|[dirs roots] q IH]; intros st Hf; cbn [map fold_left].
+  - rewrite app_nil_r. destruct st; cbn in *; subst; reflexivity.
+  - cbn [rb_xschema fst snd sb_add_def]. rewrite Hf. rewrite IH by reflexivity.
+    unfold rb_set_sd. cbn. rewrite <- app_assoc. reflexivity.
 Qed.
